@@ -86,7 +86,7 @@ def _play(t, model, hist):
     from trie.exceptions import NodeOverrideError
 
     for kind, kspec, val, syn in hist:
-        if kind == "reroot":
+        if kind in ("reroot", "sparse"):
             continue
         k = resolve_arg(kspec, model)
         val = resolve_bin_val(val, t.db)
